@@ -254,7 +254,7 @@ func runRotation(t *rapid.T) {
 	if core.Thorough() {
 		maxSteps = 120
 	}
-	steps := []string{"add", "add", "add", "promote", "promote", "disable", "enable", "delete", "reload",
+	steps := []string{"add", "add", "add", "promote", "promote", "disable", "disable", "enable", "delete", "reload", "reimport",
 		"produce", "produce", "produce", "produce", "deliver", "deliver", "deliver", "deliver", "deliver", "deliver",
 		"advance-producer", "advance-consumer", "advance-consumer", "foreign-add", "foreign-add", "foreign-produce", "foreign-produce"}
 	nSteps := rapid.IntRange(1, maxSteps).Draw(t, "nSteps")
@@ -264,10 +264,19 @@ func runRotation(t *rapid.T) {
 			w.maxLive = n
 		}
 	}
-	// every message still undelivered reaches somebody
-	for _, m := range w.net {
-		if m.count == 0 && w.deliveries < 60 && len(w.own.versions) > 0 {
-			w.deliver(m, rapid.IntRange(0, len(w.cons)-1).Draw(t, "sweepTo"))
+	// every message reaches somebody holding whatever version, and then the one
+	// consumer who has meanwhile received the newest keyset
+	if len(w.own.versions) > 0 {
+		for _, m := range w.net {
+			if m.count == 0 && w.deliveries < 90 {
+				w.deliver(m, rapid.IntRange(0, len(w.cons)-1).Draw(t, "sweepTo"))
+			}
+		}
+		w.cons[0].ver = len(w.own.versions) - 1
+		for _, m := range w.net {
+			if w.deliveries < 90 {
+				w.deliver(m, 0)
+			}
 		}
 	}
 	g.ClearScript()
@@ -305,15 +314,17 @@ func (w *world) step(kind string) {
 		w.newManager(s, s.versions[len(s.versions)-1].h)
 		w.r.Probe("manager-reloaded")
 		w.r.Logf("own: manager reloaded from version %d", len(s.versions)-1)
+	case "reimport":
+		w.reimport()
 	case "produce":
 		if len(w.own.versions) == 0 || len(w.net) >= 24 {
 			return
 		}
 		p := w.prods[rapid.IntRange(0, len(w.prods)-1).Draw(t, "producer")]
 		w.ensureVer(p)
-		w.produce(w.own.versions[p.ver], rapid.IntRange(0, 3).Draw(t, "grind") == 3)
+		w.produce(w.own.versions[p.ver], rapid.Bool().Draw(t, "grind"))
 	case "deliver":
-		if len(w.net) == 0 || len(w.own.versions) == 0 || w.deliveries >= 60 {
+		if len(w.net) == 0 || len(w.own.versions) == 0 || w.deliveries >= 90 {
 			return
 		}
 		m := w.net[rapid.IntRange(0, len(w.net)-1).Draw(t, "msg")]
@@ -435,7 +446,7 @@ func (w *world) idPlan(s *side) (script []uint32, kind string, pref string) {
 	}
 	rawMsg := w.rawLooksPrefixed(s)
 	if rawMsg != nil {
-		kinds = append(kinds, "match-raw", "match-raw", "match-raw")
+		kinds = append(kinds, "match-raw", "match-raw", "match-raw", "match-raw", "match-raw", "match-raw")
 	}
 	kind = rapid.SampledFrom(kinds).Draw(t, "idPlan")
 	pick := func(l []uint32) uint32 { return l[rapid.IntRange(0, len(l)-1).Draw(t, "idOf")] }
@@ -528,7 +539,13 @@ func familyEntry(base, variant string) catalog.Entry {
 func (w *world) opAdd(s *side) {
 	t, r := w.t, w.r
 	kinds := []string{"template", "params", "addkey-fresh"}
-	if len(s.all) > 0 {
+	var withKey []*ident
+	for _, a := range s.all {
+		if a.key != nil {
+			withKey = append(withKey, a)
+		}
+	}
+	if len(withKey) > 0 {
 		kinds = append(kinds, "addkey-rekeyed", "addkey-rekeyed", "addkey-again")
 	}
 	stubURL, hasStub := stubkm.ClassURL(w.class)
@@ -549,7 +566,7 @@ func (w *world) opAdd(s *side) {
 			kind = "addkey-fresh" // generating RSA / SLH-DSA keys inside a run is too slow
 		}
 	case "addkey-rekeyed", "addkey-again":
-		src = s.all[rapid.IntRange(0, len(s.all)-1).Draw(t, "srcIdx")]
+		src = withKey[rapid.IntRange(0, len(withKey)-1).Draw(t, "srcIdx")]
 		base, keyType, stub = src.base, src.keyType, src.stub
 		if stub {
 			family = stubVariants(w.class)
@@ -558,6 +575,16 @@ func (w *world) opAdd(s *side) {
 		}
 	case "stub-key", "stub-template":
 		base, keyType, stub, family = stubBase(w.class), "stubkm", true, stubVariants(w.class)
+	}
+	if w.quiet {
+		// keyset.Validate refuses the WITH_ID_REQUIREMENT prefix type, so such a key cannot be in a parsed start keyset
+		var f []string
+		for _, v := range family {
+			if v != catalog.VRawPrehashID {
+				f = append(f, v)
+			}
+		}
+		family = f
 	}
 	script, plan, pref := w.idPlan(s)
 	variant := w.chooseVariant(family, pref)
@@ -722,11 +749,22 @@ func (w *world) keyOp(s *side, op string) {
 	}
 	// mostly the oldest or the newest key, as in a rotation
 	var idx int
-	switch rapid.IntRange(0, 2).Draw(w.t, "which") {
+	switch rapid.IntRange(0, 3).Draw(w.t, "which") {
 	case 0:
 		idx = len(s.order) - 1
 	case 1:
 		idx = 0
+	case 2:
+		// the key whose message is still travelling (retiring a key too early)
+		idx = len(s.order) - 1
+		for i := len(w.net) - 1; i >= 0; i-- {
+			if m := w.net[i]; m.foreign == s.foreign {
+				if j := indexOf(s.order, m.by.id); j >= 0 && s.live[m.by.id].mat == m.by.mat {
+					idx = j
+					break
+				}
+			}
+		}
 	default:
 		idx = rapid.IntRange(0, len(s.order)-1).Draw(w.t, "keyIdx")
 	}
@@ -759,6 +797,57 @@ func (w *world) keyOp(s *side, op string) {
 		s.order = append(s.order[:idx:idx], s.order[idx+1:]...)
 	}
 	w.publish(s)
+}
+
+func indexOf(l []uint32, v uint32) int {
+	for i, x := range l {
+		if x == v {
+			return i
+		}
+	}
+	return -1
+}
+
+// reimport: the stored keyset comes back from storage with statuses edited by
+// another tool (DISABLED / DESTROYED non-primary keys); the administrator goes on from there.
+func (w *world) reimport() {
+	t, s := w.t, w.own
+	if len(s.versions) == 0 {
+		return
+	}
+	for _, id := range s.order {
+		if s.live[id].variant == catalog.VRawPrehashID {
+			return // keyset.Validate refuses that prefix type
+		}
+	}
+	last := s.versions[len(s.versions)-1]
+	ks := insecurecleartextkeyset.KeysetMaterial(last.h)
+	for _, k := range ks.Key {
+		if k.KeyId == ks.PrimaryKeyId {
+			continue
+		}
+		switch rapid.IntRange(0, 3).Draw(t, "newStatus") {
+		case 1:
+			k.Status = tinkpb.KeyStatusType_DISABLED
+		case 2:
+			k.Status = tinkpb.KeyStatusType_DESTROYED
+		case 3:
+			k.Status = tinkpb.KeyStatusType_ENABLED
+		}
+	}
+	var opts []keyset.Option
+	if w.mon {
+		opts = append(opts, keyset.WithAnnotations(annotations))
+	}
+	var h *keyset.Handle
+	var err error
+	w.guard("insecurecleartextkeyset.Read", func() { h, err = insecurecleartextkeyset.Read(&keyset.MemReaderWriter{Keyset: ks}, opts...) })
+	if err != nil {
+		t.Fatalf("harness: stored keyset does not parse: %v", err)
+	}
+	w.r.Logf("own: keyset re-imported from storage with edited statuses")
+	w.publishHandle(s, h)
+	w.newManager(s, h)
 }
 
 // publish: the administrator hands out the current keyset.
@@ -1054,6 +1143,9 @@ func (w *world) checkPRFSet(v *version, set *prf.Set) {
 		var out []byte
 		var err error
 		w.guard("PRFs[id].ComputePRF", func() { out, err = set.PRFs[id].ComputePRF(input, 16) })
+		if want[id] == nil {
+			continue
+		}
 		ref, rerr := w.single(want[id]).prod.Produce(input, nil)
 		if rerr != nil {
 			w.t.Fatalf("harness: %v", rerr)
@@ -1096,12 +1188,10 @@ func (w *world) produce(v *version, grind bool) {
 		tries = 400
 	}
 	var out []byte
+	base := msg
 	for i := 0; i < tries; i++ {
 		if i > 0 {
-			msg = append(bytes.Clone(msg[:len(msg):len(msg)]), byte(i))
-			if len(msg) > 40 {
-				msg = msg[len(msg)-8:]
-			}
+			msg = append(bytes.Clone(base), byte(i), byte(i>>8))
 		}
 		out = w.produceOnce(v, prod, prim, msg, aux)
 		if out == nil {
@@ -1393,9 +1483,7 @@ func (w *world) deliver(m *message, ci int) {
 		}
 	}
 
-	if r.Tracing() || true {
-		r.SetAdd("delivery", w.deliverySig(v, rel, outcome))
-	}
+	r.SetAdd("delivery", w.deliverySig(v, rel, outcome))
 }
 
 // deliverySig is the per-delivery signature DESIGN.md §3 C05 names.
